@@ -1,7 +1,7 @@
 (* C10 -- reference-counted and pooled objects are released exactly once, never early.
    Property theorems only: each is closed by [exact] of a lemma proved in Conc/. *)
 From Coq Require Import List Arith Bool NArith.
-From Muscle Require Import Gen.Consts Conc.Pool Conc.PoolProofs Conc.RefCnt Conc.RefInv Conc.RefActs Conc.RefProofs Conc.RefFork Conc.RefPool Conc.RefMore Conc.RefAcyc.
+From Muscle Require Import Gen.Consts Conc.Pool Conc.PoolProofs Conc.RefCnt Conc.RefInv Conc.RefActs Conc.RefProofs Conc.RefFork Conc.RefPool Conc.RefMore Conc.RefAcyc Conc.AtomicStep Conc.AtomicProofs.
 Import ListNotations.
 
 (* ---- the counting protocol: any number of threads, any programs, every reachable state ---- *)
@@ -91,6 +91,24 @@ Theorem C10_fresh_single_owner : forall N K s0 s t o, inv1 K s0 -> progs_ok s0 -
   forall u, u < length (s_thr s) -> u <> t -> thr_units o (thr s u) = 0.
 Proof. exact fresh_single_owner. Qed.
 Print Assumptions C10_fresh_single_owner.
+
+(* ---- the premise of all schedule theorems, tied to the source: AtomicCounter's increment / decrement-and-test in the branch
+   compiled here are ONE read-modify-write on a std::atomic whose returned value decides the answer (translator flags
+   c_c10_inc_single_rmw, c_c10_dec_single_rmw, c_c10_count_is_std_atomic, re-evaluated on every run); the model's decrement step is
+   exactly that step; with it, of n threads dropping the last n references exactly one is told "zero" ---- *)
+Theorem C10_atomic_premise_tied :
+  code_atomic_ok = true /\
+  (forall h q h' z, dec_obj h q = Some (h', z) ->
+     o_cnt (get_obj h' q) = o_cnt (get_obj h q) - 1 /\ z = (o_cnt (get_obj h q) - 1 =? 0)) /\
+  (forall n, 1 <= n -> zeros (run_rmw n n) = 1).
+Proof. exact atomic_premise_tied. Qed.
+Print Assumptions C10_atomic_premise_tied.
+
+(* a decrement split into "subtract" and a separate "load" violates the property with two threads: both are told "zero" *)
+Theorem C10_split_decrement_refuted :
+  exists sched, snd (run_split 2 [(0, false); (0, false)] sched) = [(2, true); (2, true)].
+Proof. exact split_refuted. Qed.
+Print Assumptions C10_split_decrement_refuted.
 
 (* ---- no leaks: the reference graph stays acyclic, and an acyclic graph cannot keep itself alive ---- *)
 
